@@ -160,9 +160,11 @@ NewProfile(k, rows, gaps, A) ==
 (* --- alignments *)
 NumRows(aln) == Len(aln.seqs)
 NumCols(aln) == Len(aln.trace)
+\* (a row whose sequence is empty is outside the domain: get_codes evaluates code[-1] for a gap
+\*  before masking it and numpy cannot index an empty array; see NOTES.md)
 Dom_Alignment(aln) ==
   /\ NumRows(aln) >= 1
-  /\ \A r \in DOMAIN aln.seqs : WellFormedSeq(aln.seqs[r])
+  /\ \A r \in DOMAIN aln.seqs : WellFormedSeq(aln.seqs[r]) /\ Len(aln.seqs[r].sym) >= 1
   /\ \A c \in DOMAIN aln.trace :
         /\ Len(aln.trace[c]) = NumRows(aln)
         /\ \A r \in DOMAIN aln.seqs : aln.trace[c][r] \in -1..(Len(aln.seqs[r].sym) - 1)
@@ -172,10 +174,12 @@ GetCodes(aln) ==
      LET cs == Codes(aln.seqs[r])
      IN [c \in DOMAIN aln.trace |-> IF aln.trace[c][r] = -1 THEN -1 ELSE cs[aln.trace[c][r] + 1]]]
   \* (TLCEval is applied where the codes are used: FromAlignment)
-\* gapped rows ("-" = gap) -> alignment (Alignment.trace_from_strings)
+\* gapped rows ("-" = gap) -> alignment (Alignment.trace_from_strings); a row of gaps only
+\* belongs to a sequence of one unaligned symbol (Dom_Alignment)
 GapSym == "-"
+Ungapped(A, row) == LET s == SelectSeq(row, LAMBDA x : x # GapSym) IN IF s = <<>> THEN <<A[1]>> ELSE s
 AlnFromRows(alphs, rows) ==
-  [seqs  |-> [r \in DOMAIN rows |-> Sq(alphs[r], SelectSeq(rows[r], LAMBDA x : x # GapSym))],
+  [seqs  |-> [r \in DOMAIN rows |-> Sq(alphs[r], Ungapped(alphs[r], rows[r]))],
    trace |-> IF Len(rows) = 0 THEN <<>>
              ELSE [c \in DOMAIN rows[1] |->
                      [r \in DOMAIN rows |->
@@ -282,6 +286,12 @@ GetItem(p, ix) ==
 IntWindowCode(i) == <<"slice", <<Some(i), Some(i + 1), None>>>>
 IntWindowFix(i)  == <<"slice", <<Some(i), IF i = -1 THEN None ELSE Some(i + 1), None>>>>
 Dom_IntIndex(p, i) == InRange(i, Len(p.rows))
+\* numpy accepts a boolean mask of length 0 on an axis of any length (selects nothing); that quirk
+\* of numpy is outside the domain: a mask is non-empty unless the profile is empty
+Dom_Index(p, ix) ==
+  CASE ix[1] = "int"  -> Dom_IntIndex(p, ix[2][1])
+    [] ix[1] = "mask" -> Len(ix[2]) > 0 \/ Len(p.rows) = 0
+    [] OTHER -> TRUE
 Law_IntIndexWindow(n) ==
   \A i \in (-n)..(n - 1) :
      /\ Resolve(IntWindowFix(i), n).pos = Resolve(<<"int", <<i>>>>, n).pos
@@ -460,7 +470,7 @@ Law_Helpers(p, S, pc) ==
         sc == SequenceScore(p, S, <<>>, pc).out
     IN /\ (IsNaN(pr) = \E i \in DOMAIN p.rows : SeqSum(p.rows[i]) + pc = 0)
        /\ IsNaN(sc) = IsNaN(pr)
-       /\ (~IsNaN(pr) => RatEq(sc, <<pr[1] * Pow(p.k, Len(p.rows)), pr[2]>>))
+       /\ (~IsNaN(pr) => sc = RatMul(pr, <<Pow(p.k, Len(p.rows)), 1>>))       \* both in lowest terms
        \* impossible exactly when some symbol was never seen at its position (and no pseudocount)
        /\ (~IsNaN(pr) => ((pr[1] = 0) = (pc = 0 /\ \E i \in DOMAIN S.sym :
                                              p.rows[i][CodeOf(S.alph, S.sym[i]) + 1] = 0)))
@@ -469,8 +479,10 @@ Law_Helpers(p, S, pc) ==
 RECURSIVE Digits(_)
 Digits(n) == IF n < 10 THEN 1 ELSE 1 + Digits(n \div 10)
 \* str(profile): header line with the symbols, one line per position "index counts...", all cells
-\* right-justified to the widest cell (docstring example).  Modelled for one-letter symbols.
-Dom_StrLetters(p) == Dom_Counts(p)
+\* right-justified to the widest cell (docstring example).  Modelled for symbols that print as
+\* one character (the tokens o1, o2, ... stand for non-letter symbols).
+WideSymbols == {"o1", "o2", "o3", "o4"}
+Dom_StrLetters(p) == Dom_Counts(p) /\ \A i \in DOMAIN p.alph : p.alph[i] \notin WideSymbols
 StrGrid(p) ==
   LET n == Len(p.rows)
       w == SeqMax(<<1>> \o [i \in 1..n |-> Digits(i - 1)]
